@@ -616,7 +616,7 @@ func (m *master) run(evPath, knownPath, cxdir, only string, pbOver int) int {
 			if r.incomplete == "" {
 				r.completed = pass
 				r.lastStats = r.passStats
-				if r.passStats.Pruned == 0 {
+				if r.passStats.Pruned == 0 && r.passStats.Execs > 0 && len(r.viol) == 0 {
 					// nothing was cut by the bound: every interleaving has been explored
 					r.unbounded = true
 					r.completed = r.b.PB
